@@ -209,11 +209,31 @@ func simpleParam(pe *syntax.ParamExp) bool {
 		pe.Param.Value != "LINENO"
 }
 
+// mergeLits concatenates adjacent literal parts: the parser splits a literal at every line
+// continuation (backslash-newline, which it drops), the re-parsed formatted text has one part.
+func mergeLits(parts []syntax.WordPart) []syntax.WordPart {
+	var out []syntax.WordPart
+	for _, p := range parts {
+		if l, ok := p.(*syntax.Lit); ok && len(out) > 0 {
+			if prev, ok := out[len(out)-1].(*syntax.Lit); ok {
+				out[len(out)-1] = &syntax.Lit{ValuePos: prev.ValuePos, ValueEnd: l.ValueEnd, Value: prev.Value + l.Value}
+				continue
+			}
+		}
+		out = append(out, p)
+	}
+	return out
+}
+
 func (e *exporter) dq(parts []syntax.WordPart) string {
+	return e.dq1(mergeLits(parts))
+}
+
+func (e *exporter) dq1(parts []syntax.WordPart) string {
 	if len(parts) == 0 {
 		return "DNil"
 	}
-	rest := e.dq(parts[1:])
+	rest := e.dq1(parts[1:])
 	switch p := parts[0].(type) {
 	case *syntax.Lit:
 		return fmt.Sprintf("(DLit %s %s)", coqStr(p.Value), rest)
@@ -232,7 +252,7 @@ func (e *exporter) dq(parts []syntax.WordPart) string {
 }
 
 func (e *exporter) word(w *syntax.Word) string {
-	return e.parts(w.Parts)
+	return e.parts(mergeLits(w.Parts))
 }
 
 func (e *exporter) parts(parts []syntax.WordPart) string {
@@ -530,7 +550,12 @@ func main() {
 		} {
 			cases = append(cases, &caseOut{Src: w, From: "witness"})
 		}
-		for _, src := range hxbeh.InterpTestPrograms() {
+		// quick tier: a seed-rotated sixth of the pinned corpus; thorough tier: all of it
+		// (every corpus item the quick tier can see has been classified by a thorough run)
+		for i, src := range hxbeh.InterpTestPrograms() {
+			if o.Tier == "quick" && uint64(i)%6 != o.Seed%6 {
+				continue
+			}
 			cases = append(cases, &caseOut{Src: src, From: "corpus"})
 		}
 		for i := 0; i < o.N; i++ {
